@@ -399,3 +399,293 @@ Section Resolve.
     rmap_e pi (map_ids pi) (resolve_field_type_path r s id parents orig).
   Proof. unfold resolve_field_type_path. rewrite fuel0_eq. apply resolve_rec_equivariant. Qed.
 End Resolve.
+
+(** ** IR construction *)
+Lemma variants_ir_eq r s params : forall l u,
+  (fix go (l : list variant) (unused : list tparam_ir)
+     : result (list (N * composite_ir) * list tparam_ir) :=
+     match l with
+     | [] => Ok ([], unused)
+     | v :: l' =>
+         let* vn := parse_ident (v_name v) in
+         let* ku := create_composite_ir_kind r s (v_fields v) params unused in
+         let* rest := go l' (snd ku) in
+         Ok ((v_index v, mk_ci vn (fst ku) (docs_from_scale_info s (v_docs v))) :: fst rest,
+             snd rest)
+     end) l u = variants_ir r s params l u.
+Proof.
+  induction l as [|v l IH]; intros u; [reflexivity|].
+  cbn [variants_ir]. destruct (parse_ident (v_name v)) as [vn|e|m]; [|reflexivity|reflexivity].
+  cbn [bind]. destruct (create_composite_ir_kind r s (v_fields v) params u) as [ku|e|m];
+    [|reflexivity|reflexivity].
+  cbn [bind]. rewrite IH. reflexivity.
+Qed.
+
+Lemma create_type_ir_unfold r s t flat :
+  create_type_ir r s t flat =
+  if negb (is_composite_or_variant (t_def t)) then Ok None
+  else
+    match path_ident (t_path t) with
+    | None => Panic "Structs and enums should have a name"
+    | Some nm =>
+      let* name := parse_ident nm in
+      let* kcu :=
+        match t_def t with
+        | TDComposite fs =>
+            let* ku := create_composite_ir_kind r s fs (params_from_scale_info (t_params t))
+                                                (params_from_scale_info (t_params t)) in
+            Ok (KStruct (mk_ci name (fst ku) (docs_from_scale_info s (t_docs t))),
+                could_derive_as_compact (fst ku), snd ku)
+        | TDVariant vs =>
+            let* vu := variants_ir r s (params_from_scale_info (t_params t)) vs
+                                   (params_from_scale_info (t_params t)) in
+            Ok (KEnum name (docs_from_scale_info s (t_docs t)) (fst vu), false, snd vu)
+        | _ => Panic "unreachable"
+        end in
+      let '(kind, cdac, unused) := kcu in
+      let* d := resolve_derives_for_type flat t in
+      Ok (Some (mk_ti (params_from_scale_info (t_params t)) unused
+                      (if cdac then add_as_compact s d else d) (s_codec s) kind))
+    end.
+Proof.
+  unfold create_type_ir. destruct (negb (is_composite_or_variant (t_def t))); [reflexivity|].
+  destruct (path_ident (t_path t)) as [nm|]; [|reflexivity].
+  destruct (parse_ident nm) as [name|e|m]; [|reflexivity|reflexivity]. cbn [bind].
+  destruct (t_def t); try reflexivity.
+  rewrite variants_ir_eq. reflexivity.
+Qed.
+
+Section IR.
+  Variable pi : N -> N.
+  Variable r r' : registry.
+  Variable s : settings.
+  Hypothesis Hinj : forall i j, pi i = pi j -> i = j.
+  Hypothesis Hres : forall id, resolve r' (pi id) = option_map (rename_ty pi) (resolve r id).
+  Hypothesis Hlen : List.length r' = List.length r.
+
+  Lemma params_from_scale_info_rename ps :
+    params_from_scale_info (map (rename_tparam pi) ps) =
+    map (rename_tpi pi) (params_from_scale_info ps).
+  Proof.
+    unfold params_from_scale_info. generalize 0%N.
+    induction ps as [|p ps IH]; intros i; [reflexivity|].
+    cbn [map]. destruct p as [nm [id|]]; cbn [rename_tparam tp_ty tp_name option_map].
+    - rewrite IH. reflexivity.
+    - apply IH.
+  Qed.
+
+  Lemma tpi_eqb_rename p q : tpi_eqb (rename_tpi pi p) (rename_tpi pi q) = tpi_eqb p q.
+  Proof. unfold tpi_eqb. cbn [rename_tpi tpi_id tpi_orig tpi_idx]. rewrite (pi_eqb pi Hinj). reflexivity. Qed.
+
+  Lemma filter_map_comm {A B} (f : B -> bool) (g : A -> B) l :
+    filter f (map g l) = map g (filter (fun x => f (g x)) l).
+  Proof.
+    induction l as [|x l IH]; [reflexivity|]. cbn [map filter].
+    destruct (f (g x)); cbn [map]; rewrite IH; reflexivity.
+  Qed.
+
+  Lemma existsb_map_comm {A B} (f : B -> bool) (g : A -> B) l :
+    existsb f (map g l) = existsb (fun x => f (g x)) l.
+  Proof. induction l as [|x l IH]; [reflexivity|]. cbn [map existsb]. rewrite IH. reflexivity. Qed.
+
+  Lemma filter_ext' {A} (f g : A -> bool) l : (forall x, f x = g x) -> filter f l = filter g l.
+  Proof. intros H. induction l as [|x l IH]; [reflexivity|]. cbn [filter]. rewrite H, IH. reflexivity. Qed.
+
+  Lemma existsb_ext' {A} (f g : A -> bool) l : (forall x, f x = g x) -> existsb f l = existsb g l.
+  Proof. intros H. induction l as [|x l IH]; [reflexivity|]. cbn [existsb]. rewrite H, IH. reflexivity. Qed.
+
+  Lemma mark_used_rename unused used :
+    mark_used (map (rename_tpi pi) unused) (map (rename_tpi pi) used) =
+    map (rename_tpi pi) (mark_used unused used).
+  Proof.
+    unfold mark_used. rewrite filter_map_comm. f_equal. apply filter_ext'. intros p.
+    rewrite existsb_map_comm. f_equal. apply existsb_ext'. intros q. apply tpi_eqb_rename.
+  Qed.
+
+  Lemma all_named_rename fs : all_named (map (rename_field pi) fs) = all_named fs.
+  Proof. induction fs as [|f fs IH]; [reflexivity|]. unfold all_named in *. cbn [map forallb]. rewrite IH. reflexivity. Qed.
+  Lemma all_unnamed_rename fs : all_unnamed (map (rename_field pi) fs) = all_unnamed fs.
+  Proof. induction fs as [|f fs IH]; [reflexivity|]. unfold all_unnamed in *. cbn [map forallb]. rewrite IH. reflexivity. Qed.
+
+  Lemma field_ir_of_rename params f :
+    field_ir_of r' s (map (rename_tpi pi) params) (rename_field pi f) =
+    rmap_e pi (rename_fi pi) (field_ir_of r s params f).
+  Proof.
+    unfold field_ir_of. cbn [rename_field f_ty f_type_name].
+    rewrite (resolve_field_type_path_equivariant pi r r' s Hinj Hres Hlen).
+    destruct (resolve_field_type_path r s (f_ty f) params (f_type_name f)) as [p|e|m];
+      [|reflexivity|reflexivity].
+    cbn [rmap_e bind]. rewrite is_compact_map_ids. reflexivity.
+  Qed.
+
+  Definition rename_ku (ku : ckind * list tparam_ir) : ckind * list tparam_ir :=
+    (rename_ckind pi (fst ku), map (rename_tpi pi) (snd ku)).
+
+  Lemma create_composite_ir_kind_rename fs params unused :
+    create_composite_ir_kind r' s (map (rename_field pi) fs) (map (rename_tpi pi) params)
+                             (map (rename_tpi pi) unused) =
+    rmap_e pi rename_ku (create_composite_ir_kind r s fs params unused).
+  Proof.
+    unfold create_composite_ir_kind. destruct fs as [|f0 fs0]; [reflexivity|].
+    set (fs := f0 :: fs0).
+    change (map (rename_field pi) (f0 :: fs0)) with (map (rename_field pi) fs).
+    assert (Hne : exists a l, map (rename_field pi) fs = a :: l) by (eexists; eexists; reflexivity).
+    destruct Hne as (a & l & Hne). rewrite Hne at 1. rewrite all_named_rename, all_unnamed_rename.
+    destruct (negb (all_named fs || all_unnamed fs)); [reflexivity|].
+    destruct (all_named fs).
+    - set (F := fun (rr : registry) (ps : list tparam_ir) (f : field) =>
+                  let* id := parse_ident (match f_name f with Some n => n | None => "" end) in
+                  let* fi := field_ir_of rr s ps f in Ok (id, fi)).
+      change (mapM _ (map (rename_field pi) fs)) with
+        (mapM (F r' (map (rename_tpi pi) params)) (map (rename_field pi) fs)).
+      change (mapM _ fs) with (mapM (F r params) fs).
+      rewrite (mapM_map_rmap_e pi (F r params) (F r' (map (rename_tpi pi) params)) (rename_field pi)
+                               (fun x => (fst x, rename_fi pi (snd x))) fs).
+      + destruct (mapM (F r params) fs) as [lst|e|m]; [|reflexivity|reflexivity].
+        cbn [rmap_e bind]. unfold rename_ku. cbn [fst snd rename_ckind]. do 3 f_equal.
+        rewrite <- mark_used_rename. f_equal.
+        rewrite (flat_map_map_Forall _ (fun x => map (rename_tpi pi) (parent_params (fi_path (snd x))))).
+        * apply flat_map_map_comm.
+        * apply Forall_forall. intros x _. cbn [snd rename_fi fi_path]. apply parent_params_map_ids.
+      + apply Forall_forall. intros f _. unfold F. cbn [rename_field f_name].
+        unfold parse_ident. destruct (ident_okb _); [|reflexivity]. cbn [bind].
+        change (mk_field (f_name f) (pi (f_ty f)) (f_type_name f) (f_docs f)) with (rename_field pi f).
+        rewrite field_ir_of_rename.
+        destruct (field_ir_of r s params f); reflexivity.
+    - rewrite (mapM_map_rmap_e pi (field_ir_of r s params)
+                               (field_ir_of r' s (map (rename_tpi pi) params)) (rename_field pi)
+                               (rename_fi pi) fs).
+      + destruct (mapM (field_ir_of r s params) fs) as [lst|e|m]; [|reflexivity|reflexivity].
+        cbn [rmap_e bind]. unfold rename_ku. cbn [fst snd rename_ckind]. do 3 f_equal.
+        rewrite <- mark_used_rename. f_equal.
+        rewrite (flat_map_map_Forall _ (fun x => map (rename_tpi pi) (parent_params (fi_path x)))).
+        * apply flat_map_map_comm.
+        * apply Forall_forall. intros x _. cbn [rename_fi fi_path]. apply parent_params_map_ids.
+      + apply Forall_forall. intros f _. apply field_ir_of_rename.
+  Qed.
+
+  Lemma could_derive_rename k : could_derive_as_compact (rename_ckind pi k) = could_derive_as_compact k.
+  Proof.
+    destruct k as [|[|[n f] [|x l]]|[|f [|x l]]]; cbn [rename_ckind map could_derive_as_compact fst snd];
+      try reflexivity; cbn [rename_fi fi_path]; apply is_uint_map_ids.
+  Qed.
+
+  Definition rename_vu (x : list (N * composite_ir) * list tparam_ir) :=
+    (map (fun y => (fst y, rename_ci pi (snd y))) (fst x), map (rename_tpi pi) (snd x)).
+
+  Lemma variants_ir_rename params : forall vs unused,
+    variants_ir r' s (map (rename_tpi pi) params) (map (rename_variant pi) vs)
+                (map (rename_tpi pi) unused) =
+    rmap_e pi rename_vu (variants_ir r s params vs unused).
+  Proof.
+    induction vs as [|v vs IH]; intros unused; [reflexivity|].
+    cbn [map variants_ir]. cbn [rename_variant v_name v_fields v_index v_docs].
+    unfold parse_ident. destruct (ident_okb (v_name v)); [|reflexivity]. cbn [bind].
+    rewrite create_composite_ir_kind_rename.
+    destruct (create_composite_ir_kind r s (v_fields v) params unused) as [ku|e|m];
+      [|reflexivity|reflexivity].
+    cbn [rmap_e bind]. unfold rename_ku at 1. cbn [snd]. rewrite IH.
+    destruct (variants_ir r s params vs (snd ku)) as [rest|e|m]; reflexivity.
+  Qed.
+
+  Lemma resolve_derives_err flat t e :
+    resolve_derives_for_type flat t = Err e -> rename_err pi e = e.
+  Proof.
+    unfold resolve_derives_for_type, syn_type_path_key.
+    destruct (t_path t) as [|a l]; cbn [bind]; [intros H; inversion H; reflexivity|].
+    destruct (forallb ident_okb (a :: l)); cbn [bind]; intros H; inversion H; reflexivity.
+  Qed.
+
+  Theorem create_type_ir_equivariant t flat :
+    create_type_ir r' s (rename_ty pi t) flat =
+    rmap_e pi (option_map (rename_ir pi)) (create_type_ir r s t flat).
+  Proof.
+    rewrite !create_type_ir_unfold.
+    change (t_def (rename_ty pi t)) with (rename_def pi (t_def t)).
+    change (t_path (rename_ty pi t)) with (t_path t).
+    change (t_docs (rename_ty pi t)) with (t_docs t).
+    change (t_params (rename_ty pi t)) with (map (rename_tparam pi) (t_params t)).
+    change (resolve_derives_for_type flat (rename_ty pi t)) with (resolve_derives_for_type flat t).
+    rewrite params_from_scale_info_rename.
+    assert (Hc : is_composite_or_variant (rename_def pi (t_def t)) = is_composite_or_variant (t_def t))
+      by (destruct (t_def t); reflexivity).
+    rewrite Hc. destruct (negb (is_composite_or_variant (t_def t))); [reflexivity|].
+    destruct (path_ident (t_path t)) as [nm|]; [|reflexivity].
+    unfold parse_ident. destruct (ident_okb nm); [|reflexivity]. cbn [bind].
+    destruct (t_def t) as [fs|vs|x|len x|es|p|x|st o]; cbn [rename_def]; try reflexivity.
+    - rewrite create_composite_ir_kind_rename.
+      destruct (create_composite_ir_kind r s fs _ _) as [ku|e|m]; [|reflexivity|reflexivity].
+      cbn [rmap_e bind]. unfold rename_ku. cbn [fst snd]. rewrite could_derive_rename.
+      destruct (resolve_derives_for_type flat t) as [d|e|m] eqn:Ed; [reflexivity| |reflexivity].
+      cbn [bind rmap_e]. rewrite (resolve_derives_err _ _ _ Ed). reflexivity.
+    - rewrite variants_ir_rename.
+      destruct (variants_ir r s _ vs _) as [vu|e|m]; [|reflexivity|reflexivity].
+      cbn [rmap_e bind]. unfold rename_vu. cbn [fst snd].
+      destruct (resolve_derives_for_type flat t) as [d|e|m] eqn:Ed; [reflexivity| |reflexivity].
+      cbn [bind rmap_e]. rewrite (resolve_derives_err _ _ _ Ed). reflexivity.
+  Qed.
+End IR.
+
+(** ** emission: the item tokens do not depend on the ids *)
+Section EmitIds.
+  Variable pi : N -> N.
+  Variable s : settings.
+
+  Lemma field_tokens_rename f : field_tokens s (rename_fi pi f) = field_tokens s f.
+  Proof. unfold field_tokens. cbn [rename_fi fi_path fi_boxed]. rewrite tp_tokens_map_ids. reflexivity. Qed.
+
+  Lemma names_rename (l : list tparam_ir) :
+    map (fun p => [tpi_name p]) (map (rename_tpi pi) l) = map (fun p => [tpi_name p]) l.
+  Proof. rewrite map_map. apply map_ext. intros p. reflexivity. Qed.
+
+  Lemma type_params_tokens_rename ps : type_params_tokens (map (rename_tpi pi) ps) = type_params_tokens ps.
+  Proof.
+    destruct ps as [|p ps]; [reflexivity|]. unfold type_params_tokens.
+    change (map (rename_tpi pi) (p :: ps)) with (rename_tpi pi p :: map (rename_tpi pi) ps) at 1.
+    cbv iota. rewrite names_rename. reflexivity.
+  Qed.
+
+  Lemma phantom_tokens_rename u : phantom_tokens (map (rename_tpi pi) u) = phantom_tokens u.
+  Proof.
+    destruct u as [|p [|q u]]; [reflexivity|reflexivity|].
+    unfold phantom_tokens.
+    change (map (rename_tpi pi) (p :: q :: u))
+      with (rename_tpi pi p :: rename_tpi pi q :: map (rename_tpi pi) u) at 1.
+    cbv iota.
+    change (rename_tpi pi p :: rename_tpi pi q :: map (rename_tpi pi) u)
+      with (map (rename_tpi pi) (p :: q :: u)).
+    rewrite names_rename. reflexivity.
+  Qed.
+
+  Lemma struct_field_tokens_rename k ph c :
+    struct_field_tokens s (rename_ckind pi k) ph c = struct_field_tokens s k ph c.
+  Proof.
+    destruct k as [|fs|fs]; [reflexivity| |]; unfold struct_field_tokens; cbn [rename_ckind].
+    - rewrite mapM_map_same; [reflexivity|].
+      apply Forall_forall. intros [name f] _. cbn [fst snd]. rewrite field_tokens_rename. reflexivity.
+    - rewrite mapM_map_same; [reflexivity|].
+      apply Forall_forall. intros f _. rewrite field_tokens_rename. reflexivity.
+  Qed.
+
+  Lemma enum_field_tokens_rename k c :
+    enum_field_tokens s (rename_ckind pi k) c = enum_field_tokens s k c.
+  Proof.
+    destruct k as [|fs|fs]; [reflexivity| |]; unfold enum_field_tokens; cbn [rename_ckind].
+    - rewrite mapM_map_same; [reflexivity|].
+      apply Forall_forall. intros [name f] _. cbn [fst snd]. rewrite field_tokens_rename. reflexivity.
+    - rewrite mapM_map_same; [reflexivity|].
+      apply Forall_forall. intros f _. rewrite field_tokens_rename. reflexivity.
+  Qed.
+
+  Theorem type_ir_tokens_rename ir : type_ir_tokens s (rename_ir pi ir) = type_ir_tokens s ir.
+  Proof.
+    unfold type_ir_tokens. cbn [rename_ir ti_derives ti_params ti_unused ti_kind ti_codec].
+    rewrite type_params_tokens_rename, phantom_tokens_rename.
+    destruct (ti_kind ir) as [c|name docs vs]; cbn [rename_kind].
+    - cbn [rename_ci ci_kind ci_docs ci_name]. rewrite struct_field_tokens_rename.
+      destruct (ci_kind c); reflexivity.
+    - rewrite mapM_map_same; [reflexivity|].
+      apply Forall_forall. intros [idx c] _. cbn [fst snd rename_ci ci_kind ci_docs ci_name].
+      rewrite enum_field_tokens_rename. reflexivity.
+  Qed.
+End EmitIds.
